@@ -204,7 +204,8 @@ def run_case(case, ctx):
     if g1.bit_generator.state == fresh.bit_generator.state:
         ctx.fail(f"rng-not-consumed:{comp}", f"the generator supplied via {case['route']} to the {comp} sampler was never drawn from "
                                              f"(the sampler uses another random source)", case, route=case["route"])
-    else:
+    elif case["n"] >= 6:
+        # (with a handful of particles two different streams can, rarely, produce the same run: all moves rejected, same resampling)
         s3, _ = _sampler_run(case, case["seed2"])
         if s3 is not None and not _flat_equal(s1, s3):
             ctx.fail(f"seed-ignored:{comp}", f"a {comp} run with a different generator seed is identical", case)
